@@ -396,3 +396,73 @@ def workfile(pid, name):
     d = os.path.join(WORK, pid)
     os.makedirs(d, exist_ok=True)
     return os.path.join(d, name)
+
+
+# --------------------------------------------------------------------------------------
+# the standard three-stage pipeline used by most library-level checks
+
+def stage_model_and_replay(c, suite, mc_module, mc_cfg, mismatch_key, workers=8, timeout=1800, sample_at=(3, 500),
+                           harness_args=None, xmx=None):
+    """(1) TLC checks the model and prints behaviours/cases; (2) the harness replays them into the real code.
+    mismatch_key(record) -> (key, what) or None to ignore."""
+    beh = workfile(c.pid, "%s_behaviours.ndjson" % suite)
+    n = [0]
+    with open(beh, "w") as f:
+        def sink(o):
+            f.write(json.dumps(o, separators=(",", ":")) + "\n")
+            n[0] += 1
+            if n[0] in sample_at:
+                c.sample({"direction": "spec->code", "behaviour": o})
+        res = run_tlc(mc_module, mc_cfg, "%s/mc_%s" % (c.pid, suite), workers=workers, timeout=timeout, print_sink=sink, xmx=xmx)
+    expect_model_ok(res, "%s (%s)" % (mc_module, mc_cfg))
+    c.add_model("%s/%s" % (mc_module, mc_cfg), res)
+    out = run_harness([suite, "replay", "--in", beh, "--seed", c.seed, "--tier", c.tier] + (harness_args or []), timeout=timeout)
+    summary = {}
+    for r in out:
+        if r.get("rec") == "summary":
+            summary = r
+            c.behaviours_replayed += r.get("executions", 0)
+            c.evaluations += r.get("executions", 0)
+        elif r.get("rec") == "mismatch":
+            km = mismatch_key(r)
+            if km:
+                c.violation(km[0], km[1], {"direction": "spec->code", "mismatch": r})
+    c.notes.append("spec->code %s: %d behaviours from TLC, harness summary %s" % (suite, n[0], json.dumps(summary)))
+    return n[0], summary
+
+
+def stage_record_and_validate(c, suite, trace_module, trace_cfg, classify, timeout=1800, xmx="6g", distinct_of=None,
+                              sample_pred=None, harness_args=None, section_ev="new"):
+    """(3) the harness records the real code; TLC validates every event (failing indices are collected).
+    classify(event) -> (key, what) or None (event fails for a reason this property does not state)."""
+    trace = workfile(c.pid, "%s_trace.ndjson" % suite)
+    out = run_harness([suite, "record", "--seed", c.seed, "--tier", c.tier, "--out", trace] + (harness_args or []), timeout=timeout)
+    ok, verdict, tres = validate_trace(trace_module, trace_cfg, trace, "%s/trace_%s" % (c.pid, suite), timeout=timeout, xmx=xmx)
+    c.add_model(trace_module, tres)
+    events = [json.loads(l) for l in open(trace)]
+    if verdict.get("matched", len(events)) != len(events):
+        raise ToolError("trace spec %s did not consume the whole trace (%s of %s)" % (trace_module, verdict.get("matched"), len(events)))
+    c.evaluations += len(events)
+    if distinct_of:
+        for e in events:
+            d = distinct_of(e)
+            if d is not None:
+                c.distinct.add(str(d))
+    mine = 0
+    for idx in (verdict.get("bad", []) if not ok else []):
+        e = events[idx - 1]
+        km = classify(e)
+        if km:
+            mine += 1
+            c.violation(km[0], km[1], {"direction": "code->spec", "event_index": idx, "event": e, "trace": trace})
+    sections = sum(1 for e in events if e.get("ev") == section_ev) or 1
+    if mine == 0:
+        c.traces_validated += sections
+    if sample_pred:
+        for e in events:
+            if sample_pred(e):
+                c.sample({"direction": "code->spec", "event": e})
+                break
+    c.notes.append("code->spec %s: %d events, %d rejected for this property (%d rejected in all)" % (
+        suite, len(events), mine, verdict.get("nbad", 0) if not ok else 0))
+    return events, out
